@@ -1,7 +1,7 @@
 \* emission (thorough): H = 5, all actions
 CONSTANTS H = 5  SrcPts = {1, 2, 3, 4}  DstPts = {1, 2, 3, 4}  Profiles = {1, 2, 3, 4, 11, 12, 13, 14, 15}  FuelChoices = {0, 1, 2, 3, 5, 7, 9, 11}  SolveProfiles = {2, 3}
-          Jitters = {"none"}  Ops = {"MakeUniform", "Solve", "MapBack", "Snap"}  SnapFlags = {"true", "false", "auto"}
-          SnapProfiles = {2}  MaxLevel = 5
+          Jitters = {"none"}  Ops = {"MakeUniform", "Solve", "MapBack", "Snap", "Move"}  SnapFlags = {"true", "false", "auto"}
+          SnapProfiles = {2}  MoveProfiles = {3}  Geoms = {"cold"}  MaxLevel = 5
 INVARIANT EmitState
 INIT Init
 NEXT Next
